@@ -68,7 +68,7 @@ static ssize_t x_write_common(int fd, const void* buf, size_t n);
 #undef setup_udp_socket_address
 #undef setup_socket_address
 
-#define XMAXD 2100
+#define XMAXD 9000
 static uint8_t* x_dg[XMAXD]; static size_t x_len[XMAXD]; static int x_nd, x_cur;
 static int x_report = -1;                 /* pipe to the parent */
 static void x_say(const char* fmt, ...)
@@ -99,9 +99,19 @@ static ssize_t x_read_timer(int fd, void* buf, size_t n)        /* timeout() rea
 }
 static jmp_buf x_end; static int x_end_armed;
 /* datagram source for every listener */
+static FILE* x_of; static long x_ooff;      /* text mode of the main-loop listeners: stdout is captured and reported per datagram */
+static void x_text_report(void)
+{
+    if (!x_of) return;
+    static uint8_t tb[1 << 16];
+    fflush(stdout);
+    fseek(x_of, x_ooff, SEEK_SET); size_t k = fread(tb, 1, sizeof tb, x_of); x_ooff += (long)k;
+    if (x_cur > 0) { if (k) x_sayhex("W", tb, k); x_say("D %d 0\n", x_cur - 1); }
+}
 static ssize_t x_recv(int fd, void* buf, size_t n, int flags)
 {
     (void)fd; (void)flags;
+    x_text_report();
     if (x_cur >= x_nd) { if (x_end_armed) longjmp(x_end, 1); return -1; }
     size_t l = x_len[x_cur] < n ? x_len[x_cur] : n;
     memcpy(buf, x_dg[x_cur], l);
@@ -266,6 +276,9 @@ static void child(char** tok, int nt)
     int m[3] = { atoi(tok[1]), atoi(tok[2]), atoi(tok[3]) };
     int devnull = open("/dev/null", O_WRONLY);
     if (devnull >= 0) { dup2(devnull, 1); }
+#if defined(XH_MAINLOOP)
+    if (m[2] == 1) { x_of = tmpfile(); if (x_of) dup2(fileno(x_of), 1); }
+#endif
 #if defined(XH_LISTENER)
     (void)nt;
 #if defined(XH_QUEUE)
@@ -356,12 +369,12 @@ int main(void)
         else if (WEXITSTATUS(st) != 0) snprintf(status, sizeof status, "exit:%d", WEXITSTATUS(st));
         else strcpy(status, "ok");
         /* digest: D i ret | W hex | P hex | M n ret */
-        int done = 0; char rets[1024] = ""; size_t rl = 0;
+        int done = 0; static char rets[1 << 17]; size_t rl = 0; rets[0] = 0;
         printf("R %s ", status);
         static char outs[1 << 22]; size_t ol = 0;
         for (char* ln = strtok(rep, "\n"); ln; ln = strtok(NULL, "\n")) {
-            if (ln[0] == 'D') { int i, r; sscanf(ln + 2, "%d %d", &i, &r); done = i + 1; rl += (size_t)snprintf(rets + rl, sizeof rets - rl, "%s%d", rl ? "," : "", r); outs[ol++] = '|'; }
-            else if (ln[0] == 'M') { int i, r; sscanf(ln + 2, "%d %d", &i, &r); done = i; rl += (size_t)snprintf(rets + rl, sizeof rets - rl, "%s%d", rl ? "," : "", r); }
+            if (ln[0] == 'D') { int i, r; sscanf(ln + 2, "%d %d", &i, &r); done = i + 1; if (rl + 16 < sizeof rets) rl += (size_t)snprintf(rets + rl, sizeof rets - rl, "%s%d", rl ? "," : "", r); outs[ol++] = '|'; }
+            else if (ln[0] == 'M') { int i, r; sscanf(ln + 2, "%d %d", &i, &r); done = i; if (rl + 16 < sizeof rets) rl += (size_t)snprintf(rets + rl, sizeof rets - rl, "%s%d", rl ? "," : "", r); }
             else if (ln[0] == 'I') { size_t l = strlen(ln + 2); if (ol && outs[ol - 1] != '|' ) outs[ol++] = ','; outs[ol++] = 'i'; memcpy(outs + ol, ln + 2, l); ol += l; }
             else if (ln[0] == 'W' || ln[0] == 'P' || ln[0] == 'E') { size_t l = strlen(ln + 2); if (ol && outs[ol - 1] != '|' ) outs[ol++] = ','; memcpy(outs + ol, ln + 2, l); ol += l; }
         }
